@@ -6,7 +6,7 @@ PROP_MODULE = "NeverModel.Props.C04"
 REQUIRED = ["Never.C04.collect_preserves_reachable", "Never.C04.collect_leaves_registers", "Never.C04.collect_preserves_edges",
             "Never.C04.collect_preserves_liveness", "Never.C04.collect_preserves_reachable_graph", "Never.C04.collect_twice_defined",
             "Never.C04.collect_twice_same_objects", "Never.C04.collect_keeps_wellTyped", "Never.C04.run_any_schedule_same_view",
-            "Never.C04.safe_point_any_mode_same_view", "Never.C04.safe_point_never_fails", "Never.C04.collect_depends_on_root_set"]
+            "Never.C04.safe_point_any_mode_same_view", "Never.C04.safe_point_never_fails", "Never.C04.collect_depends_on_root_set", "Never.C04.alloc_after_collect_not_live"]
 
 def outcome_key(r, io):
     """the observable of the property: result, printed text, exception / error"""
